@@ -120,7 +120,7 @@ func TestC35(t *testing.T) {
 		r.Inconclusive(fmt.Sprintf("only %d session states harvested", len(base)))
 		return
 	}
-	n := mon.Pick(500, 3000)
+	n := mon.Pick(500, 20000)
 	fullMutations := mon.Pick(24, 200) // tickets on which *every* bit flip / truncation is tried
 	for i := 0; i < n; i++ {
 		rg := Sub("C35", i)
@@ -312,7 +312,7 @@ func TestC35(t *testing.T) {
 	// (its key was at most one day old when it sealed), and never opens once it is 8 days
 	// old (by then a rotation that saw the key older than 7 days has certainly happened).
 	{
-		hist := mon.Pick(400, 4000)
+		hist := mon.Pick(400, 60000)
 		day := 24 * time.Hour
 		for hi := 0; hi < hist; hi++ {
 			rg := Sub("C35auto", hi)
